@@ -46,4 +46,9 @@ V2Message(kind, a, b) ==
       [] kind = "Leftovers" -> "Header contains leftover " \o ToString(a) \o " bytes not accounted for by the address family or TLVs."
       [] OTHER -> "?"
 
+(* `Display` of an accepted v2 header (src/v2/model.rs): the signature as a byte list, the two
+   control bytes as `{:#X}`, the payload length *)
+V2HeaderDisplay(vc, afp, length) ==
+    "[13, 10, 13, 10, 0, 13, 10, 81, 85, 73, 84, 10] 0x" \o HexStr(vc) \o " 0x" \o HexStr(afp) \o " (" \o ToString(length) \o " bytes)"
+
 =============================================================================
